@@ -16,7 +16,7 @@ class C17(Prop):
     level_note = 'Trusted: Lean kernel + standard axioms; provider generators are application code; transport.close() may raise (scripted); virtual clock.'
     design_ref = '§5 C17'
     rule = ('cause of the previous connection\'s end (server EOF, transport error, keepalive timeout, healthy) x pending request-responses/streams at that moment x 1..4 consecutive '
-            'reconnects x provider/connect suspensions x close() of the old transport raising ConnectionResetError or not; after each reconnect a request is issued and answered by the harness on the new transport and the clock is advanced by two '
+            'reconnects x provider/connect suspensions x close() of the old transport raising ConnectionResetError or not x a link that had stopped draining writes (requests still queued) or not; after each reconnect a request is issued and answered by the harness on the new transport and the clock is advanced by two '
             'keep-alive periods; non-trivial = something was pending or the cause was a timeout; distinct = distinct case')
     assumptions = ['the transport provider yields a fresh transport for every reconnect']
 
@@ -26,7 +26,7 @@ class C17(Prop):
         for _ in range(n):
             k = rng.randint(1, 4)
             out.append({'rounds': [{'cause': rng.choice(['eof', 'error', 'timeout', 'healthy']), 'pending_rr': rng.randint(0, 2), 'pending_stream': rng.randint(0, 1),
-                                    'early_request': rng.random() < 0.4, 'close_raises': rng.random() < 0.35} for _ in range(k)],
+                                    'early_request': rng.random() < 0.4, 'close_raises': rng.random() < 0.35, 'stalled': rng.random() < 0.25} for _ in range(k)],
                         'p': rng.randint(0, 2), 'c': rng.randint(0, 2)})
         return out
 
@@ -77,7 +77,10 @@ class C17(Prop):
             if r.get('close_raises'):
                 # closing the old transport fails (as closing a reset TCP connection does): the reconnect must go on regardless
                 t.close_error = ConnectionResetError(104, 'Connection reset by peer')
-            pend = [c.request_response(Payload(b'p%d' % i)) for i in range(r['pending_rr'])]
+            if r.get('stalled'):
+                # the link stops draining writes: requests issued now stay in the send queue (the first one inside send_frame)
+                t.gated = True
+            pend = [c.request_response(Payload(b'p%d' % i)) for i in range(r['pending_rr'] + (2 if r.get('stalled') else 0))]
             subs = []
             for _ in range(r['pending_stream']):
                 s = Sub()
@@ -124,6 +127,7 @@ class C17(Prop):
                 'subs_failed': [any(e.startswith('error') for e in s.events) for s in subs],
                 'first_frame': first, 'served_sid': sid, 'served': ok, 'early_sid': early_sid, 'early': None if early is None else (early if isinstance(early, str) else 'future'),
                 'keepalives_in_2_periods': ka1 - ka0, 'timeouts': timeouts, 'setups': sum(1 for e in nt.sent if e[1].startswith('SETUP')),
+                'stale': [e[1][:60] for e in nt.sent if isinstance(e[2], F.RequestResponseFrame) and bytes(e[2].data or b'').startswith(b'p') and bytes(e[2].data) != b'ping'],
             })
         evs, sends, anomalies = R.model_events()
         try:
@@ -136,6 +140,8 @@ class C17(Prop):
         return ['cli ' + ' '.join(e for e in obs['events'] if e != 'QS-LATE')]
 
     def compare(self, case, obs, answers):
+        if any(r.get('stalled') for r in case['rounds']):
+            return None      # a link that stops draining is outside the life-cycle model's event alphabet: judged by the oracle only
         if obs['anomalies']:
             return 'life-cycle: %s' % obs['anomalies']
         sent = answers[0].split(' | ')[0].split(' ') if answers[0].split(' | ')[0] else []
@@ -158,6 +164,8 @@ class C17(Prop):
             exp_sid = 3 if r['early'] == 'future' else 1
             if r['served_sid'] != exp_sid or (r['early'] == 'future' and r['early_sid'] != 1):
                 fails.append({'signature': 'stream-ids-not-restarted:' + c['cause'], 'what': '%s: first request id %s / %s, expected to restart from 1' % (ctx, r['early_sid'], r['served_sid'])})
+            if r.get('stale'):
+                fails.append({'signature': 'stale-frames-on-new-connection', 'what': '%s: requests queued on the previous connection were sent on the new one: %s' % (ctx, r['stale'])})
             if not r['served']:
                 fails.append({'signature': 'request-after-reconnect-not-served:' + c['cause'], 'what': '%s: a request issued afterwards was not served' % ctx})
             if r['keepalives_in_2_periods'] < 1:
